@@ -1,6 +1,8 @@
 """VtOrderA (C14): see __init__.py.  Behaviour letters (first letter of the command name):
  r b v l h  irc.reply(name + '(' + ', '.join(args) + ')')
  n        irc.noReply()
+ o        irc.reply('')            (the empty string is a reply like any other)
+ w        irc.reply('  ')          (blanks only)
  e        irc.error('E:' + name)
  s        nothing at all
  i        msg.tag('ignored'); irc.noReply()        (what Utilities.ignore does)
@@ -26,6 +28,10 @@ def _make(name):
             irc.reply(text)
         elif k == 'n':
             irc.noReply()
+        elif k == 'o':
+            irc.reply('')
+        elif k == 'w':
+            irc.reply('  ')
         elif k == 'e':
             irc.error('E:' + name)
         elif k == 's':
@@ -60,6 +66,6 @@ class VtOrderA(callbacks.Plugin):
 _fill(VtOrderA.grp, ['rga', 'both', 'nga', 'sga'])
 _fill(VtOrderA, ['rone', 'rtwo', 'both', 'nrep', 'erro', 'sile', 'igno', 'jtag', 'xval', 'yerr', 'zarg', 'qsil',
                  'vtorderb', 'list', 'rdis',
-                 'runi', 'nuni', 'suni', 'iuni', 'juni', 'xuni', 'euni', 'yuni', 'zuni', 'quni'])
+                 'runi', 'nuni', 'suni', 'iuni', 'juni', 'xuni', 'euni', 'yuni', 'zuni', 'quni', 'ouni', 'wuni'])
 
 Class = VtOrderA
